@@ -195,6 +195,34 @@ def run(prop, tier, seed, replay):
                         logged_many, logged_all, logged_iter)
                 try:
                     with new_filereader(path, ra_name="ra", dec_name="dec", chunksize=c) as reader:
+                        # the probe pass (centre generation) with probes SPARSER than the chunks and denser: the documented
+                        # near-regular subset (first and last record included), and — a pass like any other — every row
+                        # group requested exactly once
+                        nchunks = -(-n // c)
+                        for psize in sorted({1, 2, max(1, nchunks - 1), min(n, nchunks + 2), n}):
+                            if psize > n:
+                                continue
+                            requested.clear()
+                            probe = reader.get_probe(psize)
+                            want_idx = np.linspace(0, n - 1, psize).astype(int)
+                            ck.count(f"probe:{'sparser' if psize < nchunks else 'denser'}-than-chunks")
+                            if not np.array_equal(np.asarray(probe["ra"]), np.deg2rad(ra)[want_idx]):
+                                pos = [int(np.flatnonzero(np.deg2rad(ra) == v)[0]) if (np.deg2rad(ra) == v).any() else None
+                                       for v in np.asarray(probe["ra"])]
+                                ck.add_violation(f"{fmt} reader, chunk size {c}: a probe of {psize} of {n} records holds the rows {pos} "
+                                                 f"instead of a regular subset from the first to the last record ({want_idx.tolist()})",
+                                                 {"format": fmt, "n": n, "chunksize": c, "probe_size": psize, "row_groups": group_sizes})
+                                rows_ok = None
+                                break
+                            if group_sizes is not None and sorted(requested) != list(range(len(group_sizes))):
+                                ck.add_violation(f"parquet reader, chunk size {c}: the probe pass ({psize} records) requested the row groups "
+                                                 f"{requested} instead of each of the {len(group_sizes)} once",
+                                                 {"format": fmt, "n": n, "chunksize": c, "probe_size": psize, "row_groups": group_sizes})
+                                rows_ok = None
+                                break
+                        if rows_ok is None:
+                            rows_ok = True
+                            raise StopIteration
                         for _ in range(2):                       # two passes over the same reader
                             requested.clear()
                             chunks, handed = [], 0
@@ -214,6 +242,9 @@ def run(prop, tier, seed, replay):
                             lens.append([len(ch) for ch in chunks])
                             got = np.concatenate([np.asarray(ch["ra"]) for ch in chunks]) if chunks else np.empty(0)
                             rows_ok = rows_ok and np.array_equal(got, np.deg2rad(ra))
+                except StopIteration:
+                    path.unlink()
+                    continue
                 finally:
                     pq.ParquetFile.read_row_group = orig_read
                     if fmt == "parquet":
